@@ -50,5 +50,5 @@ CFG = DC.Config("C03", RANK_KINDS, make_cmds, components=[gen_rpfc], nsets=(12, 
 
 
 def check(run, tier, seed, replay):
-    run.assumptions = ["HT kinds and FMINDEX covered by specification theorems + correspondence (no concrete model of Hu-Tucker comparison / BWT)"]
+    run.assumptions = ["HT kinds: the byte-level memcmp-on-encoded-headers lemma is proved (ht_header_memcmp_spec), their decoder is not modelled; FMINDEX: proved over any BWT certified by fm_check"]
     DC.run(run, CFG, tier, seed, replay)
